@@ -268,6 +268,11 @@ def plan(S, prop, mode, tier, avoid):
             cy, hy = draw_interval(r)
             op.update({"cx": cx, "hx": hx, "cy": cy, "hy": hy, "gx": draw_g(r), "gy": draw_g(r),
                        "cross": round(r.uniform(-1, 1), 3)})
+            sty = wpick(r, [("expr", 7), ("inplace", 1.5), ("pointwise", 1.5)])
+            if sty == "pointwise" and cfg["q2"][0] * cfg["q2"][1] > 700:
+                sty = "inplace"
+            if sty != "expr":
+                op["style"] = sty
         ops.append(op)
     return {"cfg": cfg, "ops": ops}
 
@@ -725,14 +730,39 @@ def _do_func2(run, integrate, q2, nxy, op, judge):
     gx, gy = make_g(op["gx"]), make_g(op["gy"])
     cr = op["cross"]
 
-    def f(x, y):
+    style = op.get("style", "expr")
+
+    def f0(x, y):
         tx = (x - cx) / hx
         ty = (y - cy) / hy
         return gx(tx) * gy(ty) + cr * tx * ty * ty
 
+    def f(x, y):
+        # the integrand is handed two full grids of equal shape; user code may rely on that
+        if style == "inplace":
+            # accumulates in the array it made from x (r = g(x); r *= h(y); ...)
+            tx = (x - cx) / hx
+            ty = (y - cy) / hy
+            out = gx(tx) + 0.0
+            out *= gy(ty)
+            tx *= cr
+            tx *= ty
+            tx *= ty
+            out += tx
+            return out
+        if style == "pointwise":
+            # a scalar function applied point by point and put back into the shape of x
+            xs, ys = np.asarray(x, dtype="f8"), np.asarray(y, dtype="f8")
+            vals = [float(f0(np.float64(a), np.float64(b))) for a, b in zip(xs.ravel(), ys.ravel())]
+            return np.array(vals).reshape(xs.shape)
+        return f0(x, y)
+
     xr = [cx - hx, cx + hx]
     yr = [cy - hy, cy + hy]
     feats = {"kind": "func2", "q2": "nx==ny" if nx == ny else "nx!=ny"}
+    if style != "expr":
+        feats["style"] = style
+        run.fault("two_dimensional_integrand_relies_on_full_grids")
     try:
         got = q2.integrate_func(xr, yr, f)
     except Exception as e:
@@ -747,7 +777,7 @@ def _do_func2(run, integrate, q2, nxy, op, judge):
     ty, wy = leggauss(ny)
     X = cx + hx * tx[None, :]
     Y = cy + hy * ty[:, None]
-    Z = f(X, Y)
+    Z = f0(X, Y)
     ref = hx * hy * float(np.sum(Z * (wx[None, :] * wy[:, None])))
     tol = 1e-9 * (2 * hx) * (2 * hy) * _scale(Z) + 1e-300
     _close(run, "quad.q2.value", got, ref, tol, feats, "QGauss2(%d,%d).integrate_func" % (nx, ny))
